@@ -553,85 +553,85 @@ func runType(c *fw.Ctx, idx int, tc tcase, bound int) {
 	var execs int64
 	var stD gcStats
 	for variant := 0; variant < 4; variant++ {
-	variant := variant
-	file := cleanFile
-	if variant == 3 {
-		file = splitFile // (3) banks kept, collections written one item per block
-	}
-	// quick: statement-level points (first occurrence of each) in the main variant, codec-boundary points
-	// in the other two; thorough: the first two occurrences everywhere
-	switch {
-	case c.Tier == "thorough":
-		stmtOccCap = 2
-	case variant == 0:
-		stmtOccCap = 1
-	default:
-		stmtOccCap = 0
-	}
-	stV := gcExplore(bound, 3000, func(ch *placer) {
-		execs++
-		desc := fmt.Sprintf("decode %s (variant %s) with collections at %s", tc.name, [...]string{"banks kept", "banks dropped unclosed", "banks recycled from the pool", "banks kept, arrays and maps written one item per block"}[variant], ch.Desc())
-		if variant == 2 {
+		variant := variant
+		file := cleanFile
+		if variant == 3 {
+			file = splitFile // (3) banks kept, collections written one item per block
+		}
+		// quick: statement-level points (first occurrence of each) in the main variant, codec-boundary points
+		// in the other two; thorough: the first two occurrences everywhere
+		switch {
+		case c.Tier == "thorough":
+			stmtOccCap = 2
+		case variant == 0:
+			stmtOccCap = 1
+		default:
+			stmtOccCap = 0
+		}
+		stV := gcExplore(bound, 3000, func(ch *placer) {
+			execs++
+			desc := fmt.Sprintf("decode %s (variant %s) with collections at %s", tc.name, [...]string{"banks kept", "banks dropped unclosed", "banks recycled from the pool", "banks kept, arrays and maps written one item per block"}[variant], ch.Desc())
+			if variant == 2 {
+				hook = nil
+				if execs%2 == 0 {
+					readPrimer() // banks last used for a pointer-free record type of another shape
+				}
+				avro.ReadFile(&filedrv.Reader{Data: cleanFile}, reflect.New(outer).Elem().Interface(), func(val unsafe.Pointer, rb *avro.ResourceBank) error {
+					rb.Close()
+					return nil
+				})
+				runtime.GC() // one cycle: pooled banks survive in the pool's victim cache
+				churn()
+			}
+			c.Begin(locus+"|decode", desc)
+			resetStmtCounts()
+			hook = func(label string) {
+				if ch.At(label) {
+					collect()
+				}
+			}
+			var kept []reflect.Value
+			var banks []*avro.ResourceBank
+			var rerr error
+			pan, site := run(func() {
+				rerr = avro.ReadFile(&filedrv.Reader{Data: file, Mode: int(execs) % filedrv.NumModes}, reflect.New(outer).Elem().Interface(), func(val unsafe.Pointer, rb *avro.ResourceBank) error {
+					hook("callback")
+					sh := reflect.New(outer).Elem()
+					sh.Set(reflect.NewAt(outer, val).Elem()) // what an application retains: a shallow copy
+					kept = append(kept, sh)
+					if variant != 1 {
+						banks = append(banks, rb)
+					}
+					return nil
+				})
+			})
 			hook = nil
-			if execs%2 == 0 {
-				readPrimer() // banks last used for a pointer-free record type of another shape
+			det := map[string]interface{}{"type": tc.name, "gc_placement": ch.Desc(), "direction": "decode", "variant": variant}
+			if pan != nil {
+				c.Violation("panic:"+fw.PanicClass(pan)+"@"+site+"|"+locus+"|decode", fmt.Sprintf("panic %v — %s", pan, desc), det)
+				return
 			}
-			avro.ReadFile(&filedrv.Reader{Data: cleanFile}, reflect.New(outer).Elem().Interface(), func(val unsafe.Pointer, rb *avro.ResourceBank) error {
-				rb.Close()
-				return nil
-			})
-			runtime.GC() // one cycle: pooled banks survive in the pool's victim cache
-			churn()
-		}
-		c.Begin(locus+"|decode", desc)
-		resetStmtCounts()
-		hook = func(label string) {
-			if ch.At(label) {
+			if rerr != nil || len(kept) != len(vals) {
+				c.Violation("read-error|"+locus, fmt.Sprintf("ReadFile: err=%v records=%d — %s", rerr, len(kept), desc), det)
+				return
+			}
+			// always: one collection after decoding, compare, another collection, compare again
+			for pass := 0; pass < 2; pass++ {
 				collect()
-			}
-		}
-		var kept []reflect.Value
-		var banks []*avro.ResourceBank
-		var rerr error
-		pan, site := run(func() {
-			rerr = avro.ReadFile(&filedrv.Reader{Data: file, Mode: int(execs) % filedrv.NumModes}, reflect.New(outer).Elem().Interface(), func(val unsafe.Pointer, rb *avro.ResourceBank) error {
-				hook("callback")
-				sh := reflect.New(outer).Elem()
-				sh.Set(reflect.NewAt(outer, val).Elem()) // what an application retains: a shallow copy
-				kept = append(kept, sh)
-				if variant != 1 {
-					banks = append(banks, rb)
+				for i := range vals {
+					if d, dl, vc := gv.DiffLocus(vals[i], kept[i]); d != "" {
+						c.Violation("decoded-value-lost-after-gc|"+dl+"|"+vc, fmt.Sprintf("record %d no longer holds what was decoded after a collection (pass %d): now %s (difference at %s) — %s", i, pass, clip(gv.Show(kept[i].Field(0))), d, desc), det)
+						return
+					}
 				}
-				return nil
-			})
+			}
+			runtime.KeepAlive(banks)
 		})
-		hook = nil
-		det := map[string]interface{}{"type": tc.name, "gc_placement": ch.Desc(), "direction": "decode", "variant": variant}
-		if pan != nil {
-			c.Violation("panic:"+fw.PanicClass(pan)+"@"+site+"|"+locus+"|decode", fmt.Sprintf("panic %v — %s", pan, desc), det)
-			return
+		stD.ChoicePoints += stV.ChoicePoints
+		stD.PairsCapped = stD.PairsCapped || stV.PairsCapped
+		if stV.MaxDepth > stD.MaxDepth {
+			stD.MaxDepth = stV.MaxDepth
 		}
-		if rerr != nil || len(kept) != len(vals) {
-			c.Violation("read-error|"+locus, fmt.Sprintf("ReadFile: err=%v records=%d — %s", rerr, len(kept), desc), det)
-			return
-		}
-		// always: one collection after decoding, compare, another collection, compare again
-		for pass := 0; pass < 2; pass++ {
-			collect()
-			for i := range vals {
-				if d, dl, vc := gv.DiffLocus(vals[i], kept[i]); d != "" {
-					c.Violation("decoded-value-lost-after-gc|"+dl+"|"+vc, fmt.Sprintf("record %d no longer holds what was decoded after a collection (pass %d): now %s (difference at %s) — %s", i, pass, clip(gv.Show(kept[i].Field(0))), d, desc), det)
-					return
-				}
-			}
-		}
-		runtime.KeepAlive(banks)
-	})
-	stD.ChoicePoints += stV.ChoicePoints
-	stD.PairsCapped = stD.PairsCapped || stV.PairsCapped
-	if stV.MaxDepth > stD.MaxDepth {
-		stD.MaxDepth = stV.MaxDepth
-	}
 	}
 
 	// ---- encode direction: GC placements during Write (incl. inside map iteration)
@@ -857,7 +857,7 @@ func init() {
 			if tier == "thorough" {
 				b = 2
 			}
-			return fmt.Sprintf("workers run with GOGC=off GODEBUG=clobberfree=1,invalidptr=1, so the only collections are the ones the explorer injects and a freed object is overwritten at once; the library is rebuilt with a generated overlay that calls a hook before every statement of every function, and an instrumented leaf type GCProbe (registered custom codec) adds points inside every Read (before/middle/after), New, Omit and Write, plus callback entry and before/after each Encode: every one of these is a choice point (statement points on the decode/encode path: codecs, banks, buffers, the record loop of ReadFile, Encoder; quick tier: the first dynamic occurrence of each static point in the main variant and in encoding, codec-boundary points only in the other variants; thorough: the first two occurrences in all variants); the type universe puts probes inside and after every composite: all type expressions of depth<=2 (3 for maps and pointers in thorough) over leaves {GCProbe,string,[]byte,int64,*int64,*GCProbe,time.Time,null.String} and wrappers {*τ,[]τ,map[string]τ,struct{X τ;P GCProbe}}, each as struct{F τ; Tail GCProbe; G τ omitempty}; the decode direction runs in four variants (banks kept by the application; records kept but banks dropped unclosed; banks recycled from the pool after earlier reads whose banks were closed — of the same file and, every other placement, of a primer file whose record type takes only pointer-free allocations of 8/16/24/32 bytes from its banks — one collection in between; banks kept and the file rewritten by the reference writer with every array and map one item per block, every second block size-prefixed, so that slices and maps grow while holding items); for every type and variant ALL placements of at most %d injected collection(s) (each = 2×runtime.GC + allocation of garbage in 16 size classes) during ReadFile and during encoding are enumerated, and one collection is always run after decoding and again after the first comparison; plus a ReadBuf Reset and re-used for twelve messages with every value kept, and a mixed-retention scenario (records that take nothing from their bank between records that do; the former's banks closed at once or one callback later, a collection at any one callback); oracle: every retained (shallow-copied) record equals the value written after the last collection, encoded data equals the collection-free run as a datum, the worker does not die; distinct_nontrivial = (type, placement) executions", b)
+			return fmt.Sprintf("workers run with GOGC=off GODEBUG=clobberfree=1,invalidptr=1, so the only collections are the ones the explorer injects and a freed object is overwritten at once; the library is rebuilt with a generated overlay that calls a hook before every statement of every function, and an instrumented leaf type GCProbe (registered custom codec) adds points inside every Read (before/middle/after), New, Omit and Write, plus callback entry and before/after each Encode: every one of these is a choice point (statement points on the decode/encode path: codecs, banks, buffers, the record loop of ReadFile, Encoder; quick tier: the first dynamic occurrence of each static point in the main variant and in encoding, codec-boundary points only in the other variants; thorough: the first two occurrences in all variants); the type universe puts probes inside and after every composite: all type expressions of depth<=2 (3 for maps and pointers in thorough) over leaves {GCProbe,string,[]byte,int64,*int64,*GCProbe,time.Time,null.String} and wrappers {*τ,[]τ,map[string]τ,struct{X τ;P GCProbe}}, each as struct{F τ; Tail GCProbe; G τ omitempty}; the decode direction runs in four variants (banks kept by the application; records kept but banks dropped unclosed; banks recycled from the pool after earlier reads whose banks were closed — of the same file and, every other placement, of a primer file whose record type takes only pointer-free allocations of 8/16/24/32 bytes from its banks — one collection in between; banks kept and the file rewritten by the reference writer with every array and map one item per block, every second block size-prefixed, so that slices and maps grow while holding items); for every type and variant ALL placements of at most %d injected collection(s) (each = 2×runtime.GC + allocation of garbage in 16 size classes) during ReadFile and during encoding are enumerated, and one collection is always run after decoding and again after the first comparison; plus a ReadBuf Reset and re-used for twelve messages with every value kept, and a a read stopped by the callback's own error at every record index with that record kept (nobody closed its bank) followed by 0–2 other complete reads and collections; records holding 1–40 pointed-to or mapped elements of 4160 bytes each (the bank's arenas grow several times within one record); mixed-retention scenario (records that take nothing from their bank between records that do; the former's banks closed at once or one callback later, a collection at any one callback); oracle: every retained (shallow-copied) record equals the value written after the last collection, encoded data equals the collection-free run as a datum, the worker does not die; distinct_nontrivial = (type, placement) executions", b)
 		},
 		Assumptions: []string{
 			"collections land at interception points: in the overlay build (the registered command) that is before EVERY statement of every library function (generated zzvs.StmtPoint hooks), plus inside the probe codec and at callback entry; a collection between two machine instructions of one statement (e.g. inside a single expression that converts a uintptr back to a pointer) is not placed",
@@ -880,6 +880,8 @@ func init() {
 			}
 			if idx == len(memo[c.Tier]) {
 				runMixedRetention(c)
+				runAbandonedRead(c)
+				runBigItems(c)
 				return
 			}
 			runType(c, idx, memo[c.Tier][idx], b)
